@@ -6,12 +6,14 @@ TITLE = "Compile-time constants keep their exact Python values"
 EXTRACTS = ["Consts"]
 
 # ---- switches between the code as it is and the repaired code (proposed_fixes/C09-*.diff) ----
-# After the orchestrator applies C09-dedup_key.diff set KEY_FX = KEY_OS = True;
-# after C09-neg_huge_int.diff set ABS_THRESHOLD = NEG_REPAIRED = True.  Nothing else changes.
-KEY_FX = False          # leaf key carries the sign of a float            (make_dedup_key)
-KEY_OS = False          # frozenset constants use an ordered key           (make_dedup_key)
-ABS_THRESHOLD = False   # hex text for abs(value) > 10**13                  (IntNode.generate_evaluation_code)
-NEG_REPAIRED = False    # unop_node uses the same formatter                 (ExprNodes.unop_node)
+# After the orchestrator applies proposed_fixes/C09-float_zero_sign_merged.diff (make_dedup_key: both key
+# repairs) set KEY_FX = KEY_OS = True; after C09-neg_int_over_4300_digits_crash.diff set
+# ABS_THRESHOLD = NEG_REPAIRED = True (i.e. replace _REPAIRED by True below).  Nothing else changes.
+_REPAIRED = os.environ.get("C09_REPAIRED", "0") == "1"     # testing hook: C09_REPAIRED=1 VERIF_REPO=<patched tree>
+KEY_FX = _REPAIRED          # leaf key carries the sign of a float            (make_dedup_key)
+KEY_OS = _REPAIRED          # frozenset constants use an ordered key           (make_dedup_key)
+ABS_THRESHOLD = _REPAIRED   # hex text for abs(value) > 10**13                  (IntNode.generate_evaluation_code)
+NEG_REPAIRED = _REPAIRED    # unop_node: hex text for abs(value) > 2**64        (ExprNodes.unop_node)
 
 RULE = ("(a) direct calls: generated integer literal texts of every base/case/underscore placement/size "
         "(valid ones, their scanner-stripped form, legacy forms and random mutations) through "
